@@ -54,6 +54,11 @@ def read_model_parameters(
                 soil.profile.loc[i, "dz"] += 0.1
                 soil.fill_nan()
                 break
+        else:
+            # no compartment thinner than 0.25 m is left: keep extending the
+            # bottom compartment so that the profile always reaches Zmax + 0.1
+            soil.profile.loc[soil.profile.index[-1], "dz"] += 0.1
+            soil.fill_nan()
 
     # TODO: Why all these commented lines? The model does not allow rotations now?
     ###########
